@@ -11,6 +11,8 @@ CONFIGS = {
     # purification threshold requested below the supported floor (the code clamps it to the floor)
     # Krylov subspace approximation solver (finite electronic temperature far below the gap)
     "ksa3": dict(scf_converger=[3, {"max_rank": 3, "err_threshold": 0.0, "T_el": 1500.0}]), "ksa2": dict(scf_converger=[3, {"max_rank": 2, "err_threshold": 0.0, "T_el": 300.0}]),
+    # the three ways of obtaining forces (back-propagation is the default of the other configurations)
+    "adapt_analytic": dict(scf_converger=[1], analytical_gradient=[True]), "pulay_seminum": dict(scf_converger=[2], analytical_gradient=[True, "numerical"]),
     "adapt_sp2_tiny": dict(scf_converger=[1], sp2=[True, 1e-10]), "mix_sp2_tiny": dict(scf_converger=[0, 0.3], sp2=[True, 1e-9]),
 }
 EPS_DEFAULT = 1e-8
